@@ -2,7 +2,8 @@
 from .common import *
 from . import progs
 
-RULE = ("resultset headers and PREPARE replies with 0..1000 column descriptors; table/column names of 0, 1, 250, 251, "
+RULE = ("resultset headers and PREPARE replies with 0..1000 column descriptors and 0..300 parameter descriptors (counts on both "
+        "sides of 250/251 and 255/256/257, chosen independently); table/column names of 0, 1, 250, 251, "
         "65535, 65536, 70000 bytes incl. non-ASCII; every column type code; random and all-ones flag masks; statement ids "
         "0, 1, 2^16, 2^32-1; oracle: the client-side decoders return the declared count, names, types, flags, in order; "
         "non-trivial = more than one descriptor or a name >= 251 bytes; distinct = distinct case text")
@@ -62,10 +63,11 @@ def run(ctx):
     counts = [0, 1, 2, 3, 10, 250, 251, 252, 300] + ([1000] if not ctx.quick() else [])
     i = 0
     for n in counts:
-        for rep in range(1 if ctx.quick() else 4):
+        for rep in range(3 if ctx.quick() else 8):
             i += 1
             cs = [desc(rng, big=(n <= 3 and rep == 0)) for _ in range(n)]
-            ps = [desc(rng) for _ in range(rng.choice([0, 1, n % 7]))]
+            # parameter counts on both sides of the one-byte / 256 boundaries, independent of the column count
+            ps = [desc(rng) for _ in range(rng.choice([0, 1, 2, n % 7, 255, 256, 257, 300] if rep else [0, 1, n % 7]))]
             sid = rng.choice([0, 1, 65536, 2**32 - 1, rng.getrandbits(32)])
             cmds, scripts, exp = [], [], []
             if n > 0:
